@@ -125,7 +125,21 @@ func nativeReplay(hs *harnessSet, pkgDir string, files []string, verbose bool) m
 		json.Unmarshal(data, &rf)
 		expect[f] = rf
 	}
-	remaining := append([]string(nil), files...)
+	var remaining []string
+	for _, f := range files {
+		if expect[f].Kind != "hang" {
+			remaining = append(remaining, f)
+			continue
+		}
+		// termination violations: run alone under a short test timeout
+		env := append(goEnv(), "VX_REPLAY_FILES="+f, "TZ=UTC", "ELKROOT="+repoDir, "ELKPATH="+repoDir)
+		out, _ := runCmd(repoDir, env, 10*time.Minute, "go", "test", "-tags", "verif", "-vet=off", "-count=1", "-timeout", "20s", "-modfile="+hs.modfile, "-overlay", ov, "-run", "^TestVXReplay$", "-v", "./"+pkgDir)
+		if strings.Contains(out, "test timed out") && strings.Contains(out, "VX-REPLAY-START "+f) {
+			res[f] = "confirmed"
+		} else {
+			res[f] = "not-reproduced(terminated: " + firstLines(lastLines(out, 3), 3) + ")"
+		}
+	}
 	for len(remaining) > 0 {
 		env := append(goEnv(), "VX_REPLAY_FILES="+strings.Join(remaining, ","), "TZ=UTC", "ELKROOT="+repoDir, "ELKPATH="+repoDir)
 		out, err := runCmd(repoDir, env, 15*time.Minute, "go", "test", "-tags", "verif", "-vet=off", "-count=1", "-modfile="+hs.modfile, "-overlay", ov, "-run", "^TestVXReplay$", "-v", "./"+pkgDir)
